@@ -55,6 +55,11 @@ func (stressFamily) Gen(n int, seed int64, mode, tier string) []interface{} {
 			if w == "broker" {
 				r = rounds / 100
 			}
+			if w == "dstate" && r > 450 {
+				// merging ever larger states under the race detector grows faster than quadratically
+				// (41 s at 300 rounds, 375 s at 800): more rounds add time, not interleavings
+				r = 450
+			}
 			out = append(out, stressInput{What: w, Workers: 16, Rounds: r, Seed: seed*1000 + int64(i)})
 		}
 	}
@@ -378,8 +383,7 @@ func (stressFamily) Exec(id int, raw json.RawMessage) Case {
 			bq := &memberlist.TransmitLimitedQueue{RetransmitMult: 1, NumNodes: func() int { return 1 }}
 			ds := distributed.NewState(1, bq, audit.NoneRecorder())
 			other := distributed.NewState(2, &memberlist.TransmitLimitedQueue{RetransmitMult: 1, NumNodes: func() int { return 1 }}, audit.NoneRecorder())
-			var clk int64 = 1000
-			distributed.SetClockForVerif(func() int64 { return atomic.AddInt64(&clk, 1) })
+			stressClock()
 			stop := make(chan struct{})
 			go func() {
 				for {
@@ -494,8 +498,7 @@ func stressBroker(in stressInput, fail func(string, ...interface{})) {
 	bq := &memberlist.TransmitLimitedQueue{RetransmitMult: 1, NumNodes: func() int { return 1 }}
 	local := wasp.NewState(1)
 	ds := distributed.NewState(1, bq, audit.NoneRecorder())
-	var clk int64 = 1000
-	distributed.SetClockForVerif(func() int64 { return atomic.AddInt64(&clk, 1) })
+	stressClock()
 	dist := &wasp.PublishDistributor{ID: 1, State: ds.Subscriptions(), Storage: log, Logger: zap.NewNop()}
 	q := ack.NewQueue()
 	w := wasp.NewWriter(1, ds.Subscriptions(), local, q)
@@ -571,4 +574,18 @@ func stressBroker(in stressInput, fail func(string, ...interface{})) {
 	if l := ds.Subscriptions().All(); len(l) != 0 {
 		fail("broker: %d subscriptions left", len(l))
 	}
+}
+
+// stressClock: one strictly increasing clock for the whole process, installed once. The brokers of
+// earlier stress cases are never cancelled (see the remark on writer.Run), so their goroutines may
+// still read the clock variable: installing a new one per case would be a race of the harness's own.
+var (
+	stressClockOnce sync.Once
+	stressClk       int64 = 1000
+)
+
+func stressClock() {
+	stressClockOnce.Do(func() {
+		distributed.SetClockForVerif(func() int64 { return atomic.AddInt64(&stressClk, 1) })
+	})
 }
